@@ -18,7 +18,7 @@ LEVEL = "exploration"
 RULE = ("Hypothesis-generated (deltas with forced duplicate targets, ops, cooldown history, turn, caps in the "
         "validator's accepted ranges). Non-trivial = at least one duplicate target AND (>=2 pipeline stages fired "
         "or a value sits exactly on / one ulp around a cap). Distinct = digest of the whole input.")
-ASSUMPTIONS = ["delta magnitudes are finite and <= 1e300 (sums cannot overflow); attrs contain no ':'",
+ASSUMPTIONS = ["delta magnitudes are any finite floats (intermediate and final sums may overflow: the exact sum is rounded, beyond the range it is +-inf and then clamped); attrs contain no ':'",
                "L2 tolerance 1e-12 relative (one rounding of sqrt/division)"]
 
 IDS = ["n:a", "n:b", "e:a|r|b", "n:é", "n:a:b"]
@@ -37,8 +37,9 @@ def _types():
 def _values(novelty):
     dyadic = st.integers(-2048, 2048).map(lambda i: i / 1024.0)
     around = st.sampled_from([novelty, -novelty, novelty * (1 + 2 ** -52), novelty * (1 - 2 ** -53),
-                              -novelty * (1 + 2 ** -52), 0.0, -0.0, 5e-324, -5e-324, 1e300, -1e300, 1e16, -1e16, 1.0])
-    general = st.floats(min_value=-1e300, max_value=1e300, allow_nan=False, allow_infinity=False)
+                              -novelty * (1 + 2 ** -52), 0.0, -0.0, 5e-324, -5e-324, 1e300, -1e300, 1e16, -1e16, 1.0,
+                              1e308, -1e308, 1.7976931348623157e308, -1.7976931348623157e308])
+    general = st.floats(allow_nan=False, allow_infinity=False)
     small = st.floats(min_value=-2.0, max_value=2.0, allow_nan=False)
     return st.one_of(dyadic, dyadic, around, general, small)
 
@@ -68,9 +69,10 @@ def cases(draw):
     # cancellation triple now and then
     if n >= 1 and draw(st.booleans()):
         tk, tid, attr = draw(st.sampled_from(pool))
-        x = draw(st.sampled_from([1e16, 1e300, 3.0, 0.1]))
+        x = draw(st.sampled_from([1e16, 1e300, 3.0, 0.1, 1e308]))
         y = draw(st.sampled_from([1.0, 0.25, 1e-3]))
-        trip = [{"k": tk, "id": tid, "attr": attr, "v": v, "op_idx": None, "idx": None} for v in (x, y, -x)]
+        vals_ = (x, x, -x, -x, y) if (x >= 1e308 or draw(st.booleans())) else (x, y, -x)  # intermediate sums may overflow
+        trip = [{"k": tk, "id": tid, "attr": attr, "v": v, "op_idx": None, "idx": None} for v in vals_]
         deltas.extend(trip)
     cooldowns = draw(st.dictionaries(st.sampled_from(OPKINDS[:5]), st.integers(0, 5), max_size=4))
     last = draw(st.dictionaries(st.sampled_from(OPKINDS[:5]),
@@ -162,7 +164,12 @@ def ref_pipeline(case):
         if d["op_idx"] is not None:
             m["op"] = d["op_idx"] if m["op"] is None else min(m["op"], d["op_idx"])
     blocked = set(ref_blocked(case))
-    after = {k: float(m["sum"]) for k, m in merged.items() if m["op"] is None or m["op"] not in blocked}
+    def _to_float(fr):
+        try:
+            return float(fr)
+        except OverflowError:  # the exact sum lies beyond the float range
+            return math.inf if fr > 0 else -math.inf
+    after = {k: _to_float(m["sum"]) for k, m in merged.items() if m["op"] is None or m["op"] not in blocked}
     cap = abs(float(case["novelty"]))
     n_clamped = sum(1 for v in after.values() if abs(v) > cap)
     clamped = {k: (math.copysign(cap, v) if abs(v) > cap else v) for k, v in after.items()}
